@@ -1,19 +1,19 @@
 package checks
 
 import (
-	"github.com/olric-data/olric/internal/verif/clustermc"
 	"fmt"
+	"github.com/olric-data/olric/internal/verif/clustermc"
 
 	"github.com/olric-data/olric/internal/verif/core"
 	"github.com/olric-data/olric/internal/verif/kvmc"
 )
 
 type kvReplay struct {
-	TableSize   int      `json:"table_size"`
-	IdleTimeout int64    `json:"idle_timeout"`
-	Path        []string `json:"path"`
+	TableSize   int       `json:"table_size"`
+	IdleTimeout int64     `json:"idle_timeout"`
+	Path        []string  `json:"path"`
 	Ops         []kvmc.Op `json:"ops"`
-	Layout      string   `json:"layout"`
+	Layout      string    `json:"layout"`
 }
 
 type kvPlan struct {
